@@ -458,7 +458,8 @@ btreeDelete0(BTree x, BTreeKey k, BTreeElt *pe, BTreeFreeFun btfree)
                         btreeDelete0(x->part[i].branch, k, pe, btfree);
                 }
         }
-        else {
+        else if (!x->isLeaf) {
+                /* k can only be below x; in a leaf there is nothing to delete. */
                 if (x->part[i].branch->nKeys == t - 1) {
                         /* Make node x->part[i].branch have enough keys. */
                         if (i<x->nKeys && x->part[i+1].branch->nKeys>t-1)
